@@ -167,13 +167,6 @@ def errName : RErr → String
   | .cannotMatchBound => "cannotMatchBound" | .unknownType => "unknownType" | .doubleAssignment => "doubleAssignment"
   | .unknownUnassigned => "unknownUnassigned" | .emptyTour => "emptyTour"
 
-/-- hypotheses of `init_roundtrip_partial`, evaluated on this problem and trace -/
-def initHyp (P : Problem) (tours : List Tour) : Bool :=
-  let cust := P.jobs.filter (fun j => !j.bound)
-  cust.all placesDistinguishable &&
-  cust.all (fun jd => jd.singles.length ≤ 1 || multiTagsOk jd) &&
-  traceOk P tours
-
 def part2 (j : Lean.Json) : R (List (String × Lean.Json)) := do
   let impl ← fld j "impl"
   match j.getObjVal? "sp", impl.getObjVal? "trace" with
@@ -194,7 +187,7 @@ def part2 (j : Lean.Json) : R (List (String × Lean.Json)) := do
       ("init_read_ok", .bool (match rr with | .ok _ => true | .error _ => false)),
       ("reread", rrJ)]
     -- the property, evaluated on what the REAL reader returned, under the theorem's hypotheses
-    let hyp := initHyp P tours
+    let hyp := initHyp P tours unassigned
     let implOk := (fldD impl "init_read_ok" (.bool false)) == .bool true
     let implRe := fldD (fldD impl "reread" .null) "ok" .null
     let (actsOk, unOk) ← if implOk then do
